@@ -3,6 +3,7 @@ CONSTANTS MaxImages = 3
  MaxDrive = 40
  Kinds = {1,2,3}
 INVARIANT Injective
+INVARIANT ReadsAddressedDrive
 INVARIANT Emit
 PROPERTY AppendOnly
 PROPERTY AttachMeetsR
